@@ -60,10 +60,10 @@ def run(ctx):
                 r["runs"] = [[i, a, b - 3]]; r["k"] -= 3
                 return recs
         return recs
-    big = max([t for t in traces if "/traces/" in t], key=os.path.getsize)
+    big = sorted([t for t in traces if "/traces/" in t], key=os.path.getsize, reverse=True)
     lib.self_test(ctx, "H1ServerTrace", "H1ServerTrace.cfg", big, foreign_body, name="one body byte taken from another request", ncases=60)
-    lib.self_test(ctx, "H1ServerTrace", "H1ServerTrace.cfg", big, swap_responses, name="two responses swapped", ncases=400)
-    lib.self_test(ctx, "H1ServerTrace", "H1ServerTrace.cfg", big, drop_handle, name="second pipelined request never handled", ncases=400)
+    lib.self_test(ctx, "H1ServerTrace", "H1ServerTrace.cfg", big, swap_responses, name="two responses swapped", ncases=1500)
+    lib.self_test(ctx, "H1ServerTrace", "H1ServerTrace.cfg", big, drop_handle, name="second pipelined request never handled", ncases=1500)
     lib.self_test(ctx, "H1ServerTrace", "H1ServerTrace.cfg", big, decoy_moves_end, name="body shortened as if a decoy length were honoured", ncases=60)
 
     cnt = h1common.event_counts(traces, ["Handle", "Response", "Deliver"])
